@@ -70,4 +70,16 @@ theorem gen_validators_accept_iff (mode : Mode) (a b c d : Arg) (v : Arg → Arg
   simp only []
   cases h : v a b c d <;> simp [Except.map]
 
+/-- the `has_*` properties and the member accessors regenerated from the source are the model's: a flag is true exactly for a member
+    that was given, reading an absent member raises RuntimeError, a present one is returned as given -/
+theorem gen_accessors_eq_model (t : T) :
+    Gen.TimingArgs.has_timestamp t = t.hasTimestamp ∧ Gen.TimingArgs.has_start_time t = t.hasStartTime ∧
+    Gen.TimingArgs.has_time_offset t = t.hasOffset ∧ Gen.TimingArgs.has_sample_interval t = t.hasInterval ∧
+    Gen.TimingArgs.member_timestamp t = member t.timestamp ∧ Gen.TimingArgs.member_time_offset t = member t.offset ∧
+    Gen.TimingArgs.member_sample_interval t = member t.interval := by
+  unfold Gen.TimingArgs.has_start_time Gen.TimingArgs.has_timestamp Gen.TimingArgs.has_time_offset Gen.TimingArgs.has_sample_interval
+    Gen.TimingArgs.member_timestamp Gen.TimingArgs.member_time_offset Gen.TimingArgs.member_sample_interval
+    T.hasStartTime T.hasTimestamp T.hasOffset T.hasInterval member
+  refine ⟨?_, ?_, ?_, ?_, ?_, ?_, ?_⟩ <;> first | rfl | (cases h : Arg.isNone _ <;> simp [h])
+
 end Props.C20
